@@ -1,10 +1,56 @@
-"""C04 — see DESIGN.md §5. Shared machinery: checks/hist_common.py, checks/oracles.py."""
+"""C04 — ID rotation (DESIGN.md §5, C04): the shared history machinery plus the
+concurrent clause: K real goroutines presenting one due ID."""
+import json
+import os
+
+import vlib
 from checks import hist_common
 
 
+def conc(chk):
+    binary, blog = vlib.build_harness()
+    if binary is None:
+        return
+    p = os.path.join(vlib.BUILD, "conc04-%d.jsonl" % os.getpid())
+    n = 400 if chk.tier == "thorough" else 48
+    rc, out = vlib.run_harness(binary, "conc04", p, seed=chk.seed, n=n)
+    if rc != 0:
+        raise vlib.Machinery("conc04: " + out[-2000:])
+    recs = vlib.read_jsonl(p)
+    os.remove(p)
+    bad = []
+    hist = {}
+    for r in recs:
+        c = r["case"]
+        hist["K=%d" % c["k"]] = hist.get("K=%d" % c["k"], 0) + 1
+        if r.get("error"):
+            bad.append((r, "the real code crashed or deadlocked: " + r["error"][-600:]))
+            continue
+        ids = set(r["ids"])
+        if r.get("panics"):
+            bad.append((r, "panic in concurrent Start: %s" % r["panics"][0]))
+        elif r["draws"] != 1:
+            bad.append((r, "%d IDs were minted by %d concurrent requests on one due ID" % (r["draws"], c["k"])))
+        elif c["grace"] > 0 and (r.get("errors") or r["nil"] or len(ids) != 1 or min(ids) < 0 or set(r["data"]) != {"v42"}):
+            bad.append((r, "concurrent requests on one due ID did not all receive the same session (ids %s, errors %s, none %d)" % (sorted(ids), r.get("errors"), r["nil"])))
+        elif c["grace"] == 0 and (r.get("errors") or len(ids - {-1}) != 1):
+            bad.append((r, "concurrent requests on one due ID (grace 0) received different sessions or errors"))
+    chk.coverage["concurrent_cases"] = len(recs)
+    chk.coverage["concurrent_case_histogram"] = hist
+    chk.oblige("K concurrent requests on one due ID: one new ID, one session (%d real runs)" % len(recs), not bad)
+    for r, what in bad[:2]:
+        chk.violation({"property": "C04", "what": what, "case": r["case"], "observed": {k: v for k, v in r.items() if k != "case"},
+                       "replay": "harness family conc04 with VERIF_SEED=%d; the case's seed field reproduces the IDs, the schedule is the Go scheduler's" % chk.seed})
+
+
 def run(chk):
-    return hist_common.run_property(chk, "C04")
+    conc(chk)
+    return hist_common.run_property(chk, "C04", note="the concurrent clause is checked on real goroutines under the Go scheduler inside a synctest bubble (sampled schedules), and rests on C13 (mutual exclusion per ID) for the general claim")
 
 
 def replay(chk, path):
+    rep = json.load(open(path))
+    if "case" in rep:
+        print(json.dumps(rep, indent=1)[:3000])
+        return 0
     return hist_common.replay_property(chk, "C04", path)
